@@ -1808,6 +1808,24 @@ func TestVerifReplay(t *testing.T) {
 			if m.Size() != len(model) {
 				t.Fatalf("REPLAY-VIOLATION %s: Size() = %d, the model holds %d keys", desc, m.Size(), len(model))
 			}
+			streamed := map[string]string{}
+			if err := m.Stream(func(k string, v string) error {
+				if _, dup := streamed[k]; dup {
+					t.Fatalf("REPLAY-VIOLATION %s: Stream hands out key %q twice", desc, k)
+				}
+				streamed[k] = v
+				return nil
+			}); err != nil {
+				t.Fatalf("REPLAY-VIOLATION %s: Stream fails: %v", desc, err)
+			}
+			if len(streamed) != len(model) {
+				t.Fatalf("REPLAY-VIOLATION %s: Stream hands out %d pairs, the model holds %d", desc, len(streamed), len(model))
+			}
+			for k, want := range model {
+				if got, ok := streamed[k]; !ok || got != want {
+					t.Fatalf("REPLAY-VIOLATION %s: Stream hands out (%q, %q) [present %v], the model has (%q, %q)", desc, k, got, ok, k, want)
+				}
+			}
 		}
 		contents := fmt.Sprint(len(model))
 		for _, k := range keys {
